@@ -112,12 +112,12 @@ def next_code_char(s, m, i, ch, end=None):
     while j < end:
         if m[j]:
             c = s[j]
+            if c == ch and depth == 0:
+                return j
             if c in '([':
                 depth += 1
             elif c in ')]':
                 depth -= 1
-            elif c == ch and depth == 0:
-                return j
         j += 1
     raise Lost('no %r after %d' % (ch, i))
 
